@@ -166,6 +166,12 @@ type runner struct {
 	// number of expensive failures (hang / overalloc / crash) per target
 	hung      map[string]bool
 	expensive map[string]int
+	// confirmed hangs so far, and the number of them this run is allowed to wait for: every confirmed
+	// hang costs budget + hangConfirm of wall clock, so that a change that makes a parser loop for ever
+	// on many inputs of many targets would otherwise keep the check waiting for minutes.  After the
+	// first confirmed hang of a target its remaining cases are skipped; after maxHangs confirmed hangs
+	// the run stops issuing calls altogether (what was found is reported).
+	hangs, maxHangs int
 	// statistics
 	calls, restarts, skipped int
 }
@@ -174,6 +180,12 @@ type runner struct {
 // maxExpensiveTotal of them over all targets the run stops issuing calls (there is plenty to report)
 const maxExpensive = 2
 const maxExpensiveTotal = 16
+
+// default number of confirmed hangs a run waits for (flag -maxhang)
+const defaultMaxHangs = 2
+
+// wall-clock budget of the single confirmation run of a case that did not answer inside a chunk
+const hangConfirm = 5 * time.Second
 
 func (r *runner) totalExpensive() int {
 	n := 0
@@ -184,7 +196,12 @@ func (r *runner) totalExpensive() int {
 }
 
 func newRunner(budget time.Duration) *runner {
-	return &runner{budget: budget, hung: map[string]bool{}, expensive: map[string]int{}}
+	return &runner{budget: budget, hung: map[string]bool{}, expensive: map[string]int{}, maxHangs: defaultMaxHangs}
+}
+
+// done: no further calls are issued (enough expensive failures to report)
+func (r *runner) done() bool {
+	return r.totalExpensive() >= maxExpensiveTotal || r.hangs >= r.maxHangs
 }
 
 func (r *runner) start() {
@@ -320,6 +337,24 @@ func (r *runner) call(name string, in []byte, arg int) (class, value string) {
 	return class, value
 }
 
+// confirmHang re-runs a case that timed out inside a chunk, alone, with the confirmation budget.
+func (r *runner) confirmHang(c tcase) (class, value string) {
+	class, value, alloc := r.once(c.target, c.in, c.arg, hangConfirm)
+	if class == "hang" {
+		r.hung[c.target] = true
+		r.hangs++
+		r.expensive[c.target]++
+		return class, value
+	}
+	if (class == "ok" || class == "err") && alloc > allocLimit(len(c.in)) {
+		class, value = "overalloc", fmt.Sprintf("%d bytes allocated for %d input bytes", alloc, len(c.in))
+	}
+	if class == "overalloc" || class == "crash" {
+		r.expensive[c.target]++
+	}
+	return class, value
+}
+
 type result struct{ class, value string }
 
 func (r *runner) classify(c tcase, class, value string, alloc uint64) result {
@@ -344,7 +379,7 @@ func (r *runner) batch(cs []tcase, each func(i int, res result)) {
 		var req bytes.Buffer
 		for i < len(cs) && len(ix) < chunk {
 			c := cs[i]
-			if r.expensive[c.target] >= maxExpensive || r.totalExpensive() >= maxExpensiveTotal {
+			if r.hung[c.target] || r.expensive[c.target] >= maxExpensive || r.done() {
 				r.skipped++
 				each(i, result{"skipped", ""})
 			} else {
@@ -359,7 +394,7 @@ func (r *runner) batch(cs []tcase, each func(i int, res result)) {
 		werr := make(chan error, 1)
 		go func(w io.Writer, b []byte) { _, err := w.Write(b); werr <- err }(r.in, req.Bytes())
 		k := 0
-		broken := false
+		broken, timedOut := false, false
 		for k < len(ix) && !broken {
 			timer := time.NewTimer(r.budget)
 			select {
@@ -382,7 +417,7 @@ func (r *runner) batch(cs []tcase, each func(i int, res result)) {
 				each(ix[k], res)
 				k++
 			case <-timer.C:
-				broken = true
+				broken, timedOut = true, true
 			}
 		}
 		if broken {
@@ -392,7 +427,14 @@ func (r *runner) batch(cs []tcase, each func(i int, res result)) {
 			r.stop()
 			<-werr
 			c := cs[ix[k]]
-			class, value := r.call(c.target, c.in, c.arg)
+			var class, value string
+			if timedOut {
+				// the case did not answer within the budget: ONE confirmation run on a fresh worker
+				// (that run is the authority); a confirmed hang ends the target's cases
+				class, value = r.confirmHang(c)
+			} else {
+				class, value = r.call(c.target, c.in, c.arg)
+			}
 			each(ix[k], result{class, value})
 			// the unanswered rest of the chunk goes back into the queue
 			if k+1 < len(ix) {
@@ -424,8 +466,21 @@ type tcase struct {
 	arg    int
 }
 
-func corr(seed uint64, n int) {
+// run-wide options of corr / search
+var optMaxHangs = defaultMaxHangs
+var optSkip = map[string]bool{} // targets not exercised at all (already reported as hanging by an earlier phase)
+
+func newOptRunner() *runner {
 	r := newRunner(budget)
+	r.maxHangs = optMaxHangs
+	for t := range optSkip {
+		r.hung[t] = true
+	}
+	return r
+}
+
+func corr(seed uint64, n int) {
+	r := newOptRunner()
 	defer r.stop()
 	id := 0
 	// the reference parameter sets the stage-2 targets parse against (the model parses them itself)
@@ -452,7 +507,7 @@ func corr(seed uint64, n int) {
 		})
 	})
 	out.Flush()
-	fmt.Fprintf(os.Stderr, "corr: %d calls, %d worker starts, %d skipped\n", r.calls, r.restarts, r.skipped)
+	fmt.Fprintf(os.Stderr, "corr: %d calls, %d worker starts, %d skipped, %d confirmed hangs\n", r.calls, r.restarts, r.skipped, r.hangs)
 }
 
 // forRounds splits n generated inputs into rounds of at most roundSize so that the case lists stay small.
@@ -475,7 +530,7 @@ type failure struct {
 }
 
 func search(seed uint64, n int) {
-	r := newRunner(budget)
+	r := newOptRunner()
 	defer r.stop()
 	fails := map[string]*failure{}
 	evals := 0
@@ -519,7 +574,7 @@ func search(seed uint64, n int) {
 	}
 	fmt.Fprintf(out, "EVALS\t%d\n", evals)
 	out.Flush()
-	fmt.Fprintf(os.Stderr, "search: %d calls, %d worker starts, %d skipped\n", r.calls, r.restarts, r.skipped)
+	fmt.Fprintf(os.Stderr, "search: %d calls, %d worker starts, %d skipped, %d confirmed hangs\n", r.calls, r.restarts, r.skipped, r.hangs)
 }
 
 func main() {
@@ -534,7 +589,15 @@ func main() {
 		fs := flag.NewFlagSet(os.Args[1], flag.ExitOnError)
 		seed := fs.Uint64("seed", 0, "seed")
 		n := fs.Int("n", 1000, "number of generated inputs")
+		mh := fs.Int("maxhang", defaultMaxHangs, "number of confirmed hangs the run waits for before it stops issuing calls")
+		skip := fs.String("skip", "", "comma separated targets that are not exercised")
 		_ = fs.Parse(os.Args[2:])
+		optMaxHangs = *mh
+		for _, t := range strings.Split(*skip, ",") {
+			if t != "" {
+				optSkip[t] = true
+			}
+		}
 		if os.Args[1] == "corr" {
 			corr(*seed, *n)
 		} else {
